@@ -161,6 +161,30 @@ OPS = [
 ]
 
 
+def heavy():
+    """Scale: 3,000 distinct vectors of every version built, scored and serialised in this thread."""
+    from .. import spaces
+    n = 0
+    for fam in T.FAMILIES:
+        cls = observe.cls_of(fam)
+        for v in spaces.many_vectors(fam, 3000):
+            o = cls(v)
+            o.scores()
+            o.severities()
+            o.as_json()
+            o.as_json(sort=True, minimal=True)
+            o.clean_vector()
+            if fam != "4.0":
+                o.temporal_vector()
+                o.environmental_vector()
+            hash(o)
+            n += 1
+    return n
+
+
+HEAVY = ("12,000 distinct vectors of all versions built, scored and serialised", lambda: heavy(), False)
+
+
 def probe_inputs():
     vecs = [V2A, V2B, "AV:N/AC:L/Au:N/C:C/I:C/A:C/E:ND/TD:N", "A:P/I:P/C:P/Au:N/AC:L/AV:N",
             V30, V31, V31B, V31B_RE, "CVSS:3.1/" + "AV:N/AC:L/PR:N/UI:N/S:U/C:N/I:N/A:N",
@@ -235,7 +259,7 @@ def run_history(names, base):
     """Run the ops; return why-or-None."""
     _LL.clear()
     distinctive_context()
-    byname = dict((n, (f, cli)) for n, f, cli in OPS)
+    byname = dict((n, (f, cli)) for n, f, cli in OPS + [HEAVY])
     for n in names:
         f, is_cli = byname[n]
         out, err = io.StringIO(), io.StringIO()
@@ -300,6 +324,9 @@ def explore_histories(ctx, res, depth):
     hs = []
     for k in range(1, depth + 1):
         hs += [list(p) for p in itertools.product(names, repeat=k)]
+    # scale: the heavy operation alone, twice, and before / after every other operation
+    hv = HEAVY[0]
+    hs += [[hv], [hv, hv]] + [[n, hv] for n in names] + [[hv, n] for n in names[:1]]
     hs = ctx.rot(hs)
     # every history in its own fresh fork of the pristine parent: its verdict is a function of the
     # history alone (the probe that follows it is part of what runs in that process)
@@ -390,7 +417,13 @@ def _plan_list(gi, size, bound, gran, stride):
     return _PLANS[key]
 
 
-def run_schedule(gi, size, plan, gran):
+_HOT = [False]
+
+
+def run_schedule(gi, size, plan, gran, hot=False):
+    if hot and not _HOT[0]:
+        heavy()                       # the thread that forks the workers' threads has a long past
+        _HOT[0] = True
     bodies = make_bodies(GROUPS[gi][2], size)
     if (gi, size) not in _SEQ:
         _SEQ[(gi, size)] = [("ok", b()) for b in bodies]
@@ -407,22 +440,27 @@ def run_schedule(gi, size, plan, gran):
 
 
 def _sched_task(t):
-    gi, size, bound, gran, stride, lo, hi = t
+    gi, size, bound, gran, stride, lo, hi = t[:7]
+    hot = len(t) > 7 and t[7]
     plans, npts = _plan_list(gi, size, bound, gran, stride)
     acc = sweep.new_acc()
+    if hot:
+        run_schedule(gi, size, plans[lo], gran, True)
     base_tables = opseq.digest(opseq.constants_snapshot())
     for plan in plans[lo:hi]:
         acc["n"] += 1
-        why, ex = run_schedule(gi, size, plan, gran)
+        why, ex = run_schedule(gi, size, plan, gran, hot)
         acc["calls"] += sum(ex.points)
         acc["cmp"] += len(ex.bodies)
         if why is None and acc["n"] % 50 == 1 and opseq.digest(opseq.constants_snapshot()) != base_tables:
             why = "the package's constant tables changed"
         if why:
             # replay the very same schedule twice: identical observations are required before reporting
-            again = [run_schedule(gi, size, plan, gran)[0] for _ in range(2)]
-            sweep.bad(acc, {"what": "%s, schedule %s (%s granularity): %s" % (GROUPS[gi][0], plan, gran, why),
-                            "kind": "schedule", "input": {"group": gi, "size": size, "plan": [list(p) for p in plan], "gran": gran},
+            again = [run_schedule(gi, size, plan, gran, hot)[0] for _ in range(2)]
+            sweep.bad(acc, {"what": "%s, schedule %s (%s granularity)%s: %s" % (
+                GROUPS[gi][0], plan, gran, " in a process whose main thread first built 12,000 objects" if hot else "", why),
+                            "kind": "schedule", "input": {"group": gi, "size": size, "plan": [list(p) for p in plan],
+                                                          "gran": gran, "hot": bool(hot)},
                             "deterministic": again[0] == again[1],
                             "signature": {"kind": "schedule"}})
         else:
@@ -463,6 +501,16 @@ def explore_schedules(ctx, res):
             for lo in range(0, len(plans), step):
                 tasks.append((gi, size, bound, gran, stride, lo, min(len(plans), lo + step)))
     accs = core.pool_map(_sched_task, ctx.rot(tasks))
+    # hot: the same groups (long bodies; bound 0 and, strided, bound 1) in processes whose main
+    # thread has a long past - a separate pool, so that no other task runs in a hot worker
+    hot_tasks = []
+    for gi, (name, klass, spec) in enumerate(GROUPS):
+        for bound, stride in ((0, 1), (1, 16 if ctx.thorough else 64)):
+            plans, npts = _plan_list(gi, "long", bound, "line", stride)
+            summary["%s | hot process, long bodies, bound %d, line/%d" % (name, bound, stride)] = {
+                "schedules": len(plans), "points_per_thread": npts}
+            hot_tasks.append((gi, "long", bound, "line", stride, 0, len(plans), True))
+    accs += core.pool_map(_sched_task, hot_tasks)
     tot = sweep.merge(accs)
     for c in tot["bad"]:
         res.add_violation(c)
@@ -876,8 +924,8 @@ def replay(case):
     if k == "schedule":
         i = case["input"]
         plan = [tuple(p) for p in i["plan"]]
-        a = run_schedule(i["group"], i.get("size", "long"), plan, i["gran"])[0]
-        b = run_schedule(i["group"], i.get("size", "long"), plan, i["gran"])[0]
+        a = run_schedule(i["group"], i.get("size", "long"), plan, i["gran"], i.get("hot", False))[0]
+        b = run_schedule(i["group"], i.get("size", "long"), plan, i["gran"], i.get("hot", False))[0]
         if (a is None) != (b is None):
             raise core.HarnessError("schedule replay is not deterministic")
         return bool(a), a or "as sequential"
